@@ -419,6 +419,8 @@ func (c *FnCtx) useContract(fr *Frame, st *State, ct *FuncContract, callee *ssa.
 		c.watchValue(fmt.Sprintf("ret %s#%d", name, c.trustedCalls[name]), res)
 	}
 	post := c.contractEnv(fr, st, old, ct, callee, sig, args)
+	c.callSites++
+	post.callSite = c.callSites
 	for k, v := range pre.vars {
 		if _, ok := post.vars[k]; !ok {
 			post.vars[k] = v
